@@ -250,6 +250,7 @@ UNIT = Unit(
         format_addrspan, format_annotated, format_tcgame, get_blocks,
     ],
     serves=["C12", "C03", "C19"],
+    carry_facts_into_loops=False,   # this unit's proofs need isolated loops (loop `ensures` clauses, or the solver runs out of resources with the wider context)
     description="util::BitVec listings (address spans, annotated, Turing Complete) against functional specs of their rows",
 )
 
@@ -261,6 +262,7 @@ UNIT_HEX = Unit(
         get_blocks.as_stub("util"), flush, intelhex,
     ],
     serves=["C11", "C03", "C19"],
+    carry_facts_into_loops=False,   # this unit's proofs need isolated loops (loop `ensures` clauses, or the solver runs out of resources with the wider context)
     description="util::BitVec::format_intelhex (with its record-writing closure lifted to a function, R25)",
 )
 UNITS = [UNIT, UNIT_HEX]
